@@ -956,8 +956,14 @@ func (q *Queue) emitDSN(meta *QueueMetadata, header textproto.Header, failedRcpt
 		// rcptErr is stored in RcptErrs using the effective recipient address,
 		// not the original one.
 
-		originalRcpt := meta.MsgMeta.OriginalRcpts[rcpt]
-		if originalRcpt != "" {
+		// Nested pipelines (reroute) each record their own rewriting step, follow
+		// the chain back to the address presented by the client. The counter
+		// guards against a loop in the map.
+		for i := 0; i <= len(meta.MsgMeta.OriginalRcpts); i++ {
+			originalRcpt := meta.MsgMeta.OriginalRcpts[rcpt]
+			if originalRcpt == "" || originalRcpt == rcpt {
+				break
+			}
 			rcpt = originalRcpt
 		}
 
